@@ -38,9 +38,14 @@ class Importance(CellModifierInput):
                 val = value["data"]
                 if isinstance(val, syntax_node.ListNode):
                     val = value["data"][0]
-                if val.type != float or val.value < 0:
+                if (
+                    not isinstance(val, syntax_node.ValueNode)
+                    or val.type != float
+                    or val.value is None
+                    or val.value < 0
+                ):
                     raise ValueError(
-                        f"Cell importance must be a number ≥ 0. {val.value} was given"
+                        f"Cell importance must be a number ≥ 0. {getattr(val, 'value', val)} was given"
                     )
                 for particle in self.particle_classifiers:
                     self._particle_importances[particle] = value
